@@ -13,7 +13,7 @@ Go code modelled (all in /repo):
                connection is closed.  `handleConn` does NOT require an identity request first.
 * rpc.go       `replyRPC`, identity branch: `identityMismatch` unless `r.cid == req.cid && r.nid == req.nid`
 * util.go      `lockDir` (TempFile, Link, Lstat/Lstat/SameFile, deferred Remove of the temp file), `unlockDir`
-* storage.go   `SetIdentity` (incl. the deferred `err = unlockDir(dir)` that overwrites the returned error)
+* storage.go   `SetIdentity` (the deferred `unlockDir(dir)` reports its own error only if the body returned nil)
 * raft.go      `New` (`ErrIdentityNotSet`), `Serve` (`lockDir` … `defer unlockDir`)
 
 Assumptions that are part of the model (recorded in the evidence):
@@ -613,7 +613,8 @@ def isHolding : PC → Bool
 /-- `lockDir` run without interruption -/
 def lockDirEvs (p : Nat) (job : Job) : List Ev := [.create p job, .link p, .stat p, .cleanup p]
 
-/-- What the body of `SetIdentity` computes as its result BEFORE the deferred `err = unlockDir(dir)`. -/
+/-- What the body of `SetIdentity` returns once it holds the lock (the rename of an uninterrupted call
+cannot fail: the file read is the file renamed). -/
 def bodyResult (stored : Nat × Nat) (cid nid : Nat) : Res :=
   if cid = stored.1 ∧ nid = stored.2 then .ok
   else if stored.1 ≠ 0 ∧ stored.2 ≠ 0 then .alreadySet
@@ -623,21 +624,19 @@ structure SetIdResult where
   state : State
   /-- what the caller gets -/
   returned : Res
-  /-- what the body had computed when the deferred function overwrote it (`none`: lock not taken) -/
-  body : Option Res
 
 /-- `SetIdentity(dir, cid, nid)` by process `p`, not interleaved with anything. -/
 def setIdentity (s : State) (p cid nid : Nat) : SetIdResult :=
-  if cid = 0 then { state := s, returned := .cidZero, body := none }
-  else if nid = 0 then { state := s, returned := .nidZero, body := none }
+  if cid = 0 then { state := s, returned := .cidZero }
+  else if nid = 0 then { state := s, returned := .nidZero }
   else
     let s1 := run s (lockDirEvs p .setId)
     if isHolding (s1.procs p).pc = true then
-      -- the deferred `err = unlockDir(storageDir)` replaces whatever the body returned; RemoveAll gives nil
-      { state := run s1 [.idRead p, .idWrite p cid nid, .unlock p], returned := .ok,
-        body := some (bodyResult s1.stored cid nid) }
+      -- deferred: `if e := unlockDir(storageDir); err == nil { err = e }` — the body's error is kept,
+      -- and RemoveAll of the lock name gives nil
+      { state := run s1 [.idRead p, .idWrite p cid nid, .unlock p], returned := bodyResult s1.stored cid nid }
     else
-      { state := s1, returned := ((s1.procs p).last).getD .ioErr, body := none }
+      { state := s1, returned := ((s1.procs p).last).getD .ioErr }
 
 /-- `New`: `openStorage` reads the identity (without taking the lock); zero ids are refused. -/
 def newNode (s : State) : Res × Conn.Identity :=
